@@ -28,6 +28,7 @@
 import Sipsp.Proofs.Layout
 import Sipsp.Properties.C01
 import Sipsp.Properties.C08
+import Sipsp.Proofs.FieldsLo
 
 namespace Sipsp.C05
 open Sipsp
@@ -190,5 +191,55 @@ theorem first_line_order_reply (b : Buf) (o v e crl l : Nat) (hfit : b.size ≤ 
 
 /-! ### non-vacuity -/
 example : (parseSIPMsg C01.exMsg 0 C01.exInit 0).2.1 = Err.ok := by decide +kernel
+
+/-! ### lower bounds, nesting and order for every input (Proofs/FieldsLo.lean) -/
+
+/-- **lower bound, first line, resumption invariant**: every non-empty first-line field (and the one a suspended parse is extending) starts at or after the start offset `s`; holds for a new object and is kept by every call at an offset ≥ s, whatever the verdict (Proofs/FieldsLo.lean) -/
+theorem first_line_lower_bound : type_of% @parseFLine_lo := @parseFLine_lo
+
+/-- **first-line fields appear in order, for every input**: whenever ParseFLine returns OK the fields are method < URI < version or version < status < reason, separated, non-empty, the first at `o`, the last ending before the returned offset -/
+theorem first_line_order : type_of% @parseFLine_order := @parseFLine_order
+
+/-- **a header's name and value lie inside its own line**: name starts at the line start, is non-empty, the value (if any) starts after the name's end, both end at or before the returned offset -/
+theorem header_line_own_line : type_of% @parseHdrLine_own_line := @parseHdrLine_own_line
+
+/-- … the lower-bound half, including every typed header value object -/
+theorem header_line_lower_bound : type_of% @parseHdrLine_lo := @parseHdrLine_lo
+
+/-- **CSeq number and method lie inside the CSeq value**: `cseq.offs = v.offs`, cseq ends at or before the method, the method ends where the value ends -/
+theorem cseq_nesting : type_of% @parseCSeqVal_lo := @parseCSeqVal_lo
+
+/-- **stored headers appear in buffer order**: for j < k header j's name and value end at or before header k's name; every stored header and first-of-type shortcut starts at or after the block start -/
+theorem headers_in_order : type_of% @parseHeaders_lo := @parseHeaders_lo
+
+/-- … in the k, k+1 form -/
+theorem headers_consecutive : type_of% @HlsLo.consecutive := @HlsLo.consecutive
+
+/-- **every reported field of a message starts at or after the message start** (one call) -/
+theorem msg_lower_bound : type_of% @parseSIPMsg_lo := @parseSIPMsg_lo
+
+/-- … for an object produced by Init -/
+theorem msg_lower_bound_init : type_of% @parseSIPMsg_lo_init := @parseSIPMsg_lo_init
+
+/-- … for any chain of resumed calls from Init -/
+theorem msg_lower_bound_schedule_init : type_of% @parseSIPMsg_lo_schedule_init := @parseSIPMsg_lo_schedule_init
+
+/-- what `MsgLo` says, field by field -/
+theorem msg_lower_bound_meaning : type_of% @MsgLo.meaning := @MsgLo.meaning
+
+/-- **first line before headers**: the first line is in order from `o` and ends before some `o1`; every stored header, shortcut and header value starts at or after `o1` -/
+theorem msg_order : type_of% @parseSIPMsg_ord := @parseSIPMsg_ord
+
+/-- … for an object produced by Init -/
+theorem msg_order_init : type_of% @parseSIPMsg_ord_init := @parseSIPMsg_ord_init
+
+/-- … for any chain of resumed calls from Init -/
+theorem msg_order_schedule_init : type_of% @parseSIPMsg_ord_schedule_init := @parseSIPMsg_ord_schedule_init
+
+/-- **every first-line and header field ends at or before the start of the body** -/
+theorem fields_before_body : type_of% @parseSIPMsg_before_body := @parseSIPMsg_before_body
+
+/-- … for any chain of resumed calls from Init -/
+theorem fields_before_body_schedule_init : type_of% @parseSIPMsg_before_body_schedule_init := @parseSIPMsg_before_body_schedule_init
 
 end Sipsp.C05
